@@ -691,6 +691,8 @@ type loopParts struct {
 	scope    *types.Scope
 	extraMod []types.Object
 	hidden   map[string]*types.Var
+	sync     func(s *State)       // range loops: key variable := hidden index
+	implicit func(s *State) *Term // range loops: 0 <= idx <= n always holds at the loop head
 }
 
 func (v *Verifier) execFor(s *State, x *ast.ForStmt, label string) []*Flow {
@@ -787,6 +789,12 @@ func (v *Verifier) execRange(s *State, x *ast.RangeStmt, label string) []*Flow {
 		lp.extraMod = append(lp.extraMod, valObj)
 	}
 	lp.cond = func(st *State) *Term { return Lt(st.vars[idxVar], n) }
+	lp.implicit = func(st *State) *Term { return And(Le(IntLit(0), st.vars[idxVar]), Le(st.vars[idxVar], n)) }
+	lp.sync = func(st *State) {
+		if keyObj != nil && !v.boxed[keyObj] {
+			st.vars[keyObj] = v.goIntT(st.vars[idxVar], keyObj.Type())
+		}
+	}
 	lp.pre = func(st *State) {
 		i := st.vars[idxVar]
 		if keyObj != nil {
@@ -840,6 +848,9 @@ func (v *Verifier) execLoop(s *State, lp *loopParts, node ast.Node) []*Flow {
 	}
 	var out []*Flow
 	env := v.localEnv(s, lp)
+	if lp.sync != nil {
+		lp.sync(s)
+	}
 	// 1. invariants hold on entry
 	for k, c := range ls.invs {
 		g := env.at(s, s).trBool(c.Expr)
@@ -851,6 +862,12 @@ func (v *Verifier) execLoop(s *State, lp *loopParts, node ast.Node) []*Flow {
 	h := s.clone()
 	v.havocLoop(h, s, mods, lp)
 	pre := h.clone() // state at loop head (arbitrary iteration)
+	if lp.sync != nil {
+		lp.sync(h)
+	}
+	if lp.implicit != nil {
+		h.assume(lp.implicit(h))
+	}
 	for _, c := range ls.invs {
 		h.assume(env.at(h, v.entry).withLoopPre(s).trBool(c.Expr))
 	}
@@ -902,6 +919,9 @@ func (v *Verifier) execLoop(s *State, lp *loopParts, node ast.Node) []*Flow {
 					unsupported("control flow in loop post statement")
 				}
 				st = pf[0].St
+			}
+			if lp.sync != nil {
+				lp.sync(st)
 			}
 			for k, c := range ls.invs {
 				g := env.at(st, v.entry).withLoopPre(s).trBool(c.Expr)
@@ -992,12 +1012,13 @@ func (v *Verifier) execUnrolled(s *State, lp *loopParts, ls *loopSpec) []*Flow {
 // ---------------- loop modification analysis ----------------
 
 type loopModSet struct {
-	vars     map[*types.Var]bool
-	heapAll  bool
-	heapKind map[string]bool       // heap names havocked entirely
-	bases    map[string][]ast.Expr // heap name -> expressions whose base is written
-	globals  bool
-	mapObjs  []mapWrite
+	vars       map[*types.Var]bool
+	heapAll    bool
+	heapKind   map[string]bool       // heap names havocked entirely
+	bases      map[string][]ast.Expr // heap name -> expressions whose base is written
+	globals    bool
+	mapObjs    []mapWrite
+	allocHeaps map[string]string // heaps that receive freshly allocated objects in the body: name -> sort
 }
 
 type mapWrite struct {
@@ -1016,6 +1037,8 @@ func (v *Verifier) loopMods(lp *loopParts) *loopModSet {
 	}
 	visit = func(n ast.Node) bool {
 		switch x := n.(type) {
+		case *ast.CompositeLit:
+			v.markAlloc(ms, v.info.TypeOf(x))
 		case *ast.AssignStmt:
 			for _, l := range x.Lhs {
 				markLhs(l)
@@ -1164,6 +1187,10 @@ func (ms *loopModSet) boxedObjs(name string, o *types.Var) {
 
 // havocLoop replaces everything the loop body may modify by fresh symbols.
 func (v *Verifier) havocLoop(h *State, before *State, ms *loopModSet, lp *loopParts) {
+	// an arbitrary iteration starts with an arbitrary (not smaller) allocator
+	allocPre := h.alloc
+	v.bumpAlloc(h)
+	defer v.havocAllocHeaps(h, ms, allocPre)
 	for o := range ms.vars {
 		if v.boxed[o] {
 			continue
@@ -1430,4 +1457,61 @@ func (v *Verifier) stmtText(st ast.Stmt) string {
 		return ""
 	}
 	return strings.TrimSpace(string(b[p1.Offset:p2.Offset]))
+}
+
+// markAlloc records the heaps that an allocation of a value of type t writes.
+func (v *Verifier) markAlloc(ms *loopModSet, t types.Type) {
+	if t == nil {
+		return
+	}
+	if ms.allocHeaps == nil {
+		ms.allocHeaps = map[string]string{}
+	}
+	switch u := t.Underlying().(type) {
+	case *types.Struct:
+		for i := 0; i < u.NumFields(); i++ {
+			ft := u.Field(i).Type()
+			if at, isArr := ft.Underlying().(*types.Array); isArr {
+				es := v.sortOf(at.Elem())
+				ms.allocHeaps[v.sliceHeapName(es)] = v.sliceHeapSort(es)
+			} else {
+				ms.allocHeaps[v.heapName("F", structTypeName(t), u.Field(i).Name())] = SArr(SInt, v.sortOf(ft))
+			}
+		}
+	case *types.Slice:
+		es := v.sortOf(u.Elem())
+		ms.allocHeaps[v.sliceHeapName(es)] = v.sliceHeapSort(es)
+	case *types.Array:
+		es := v.sortOf(u.Elem())
+		ms.allocHeaps[v.sliceHeapName(es)] = v.sliceHeapSort(es)
+	case *types.Pointer:
+		v.markAlloc(ms, u.Elem())
+	case *types.Map:
+		ks, vs := v.sortOf(u.Key()), v.sortOf(u.Elem())
+		tag := sortTag(ks) + "_" + sortTag(vs)
+		ms.allocHeaps["Mh_"+tag] = SArr(SInt, SArr(ks, SBool))
+		ms.allocHeaps["Mv_"+tag] = SArr(SInt, SArr(ks, vs))
+	default:
+		es := v.sortOf(t)
+		ms.allocHeaps["P_"+sortTag(es)] = SArr(SInt, es)
+	}
+}
+
+// havocAllocHeaps: heaps that receive objects allocated inside the loop are
+// arbitrary at the loop head for every reference that did not exist before the loop.
+func (v *Verifier) havocAllocHeaps(h *State, ms *loopModSet, allocPre *Term) {
+	if ms.heapAll {
+		return
+	}
+	for _, name := range sortedKeys(ms.allocHeaps) {
+		if ms.heapKind[name] {
+			continue
+		}
+		cur := v.getHeap(h, name, ms.allocHeaps[name])
+		nh := v.fresh(name, cur.Sort)
+		r := v.fresh("r", SInt)
+		_, vs, _ := arrSorts(cur.Sort)
+		h.assume(Forall([]*Term{r}, Implies(existed(r, allocPre), Eq(Select(nh, r), Select(cur, r))), mk("select", vs, nh, r)))
+		h.heaps[name] = nh
+	}
 }
